@@ -24,7 +24,9 @@ TARGETS = ['selfies/grammar_rules.py::next_atom_state',
            'selfies/decoder.py::_form_rings_bilocally',
            'selfies/mol_graph.py::Atom.bonding_capacity',
            'selfies/grammar_rules.py::process_branch_symbol',
-           'selfies/grammar_rules.py::process_ring_symbol']
+           'selfies/grammar_rules.py::process_ring_symbol',
+           'selfies/grammar_rules.py::process_atom_symbol',
+           'selfies/grammar_rules.py::_process_atom_selfies_no_cache']
 EXPLANATION = (
     "Mixed. PROVED: exception-freedom obligations (index in range, key present, None receivers, asserts, unpack "
     "arity, division by zero) generated at every raising operation of the functions under contract listed in "
